@@ -333,84 +333,10 @@ def fnVerdict : Res → Res → Res
   | .error e1, .error e2 => .error (e1 ++ e2)
   | _, _ => .ok .sub
 
-/-- `unify_types` from its first structural arm on (`t1r`, `t2r` are roots and not variables).
-`u` = `unify_types`, `ua` = `unify_types_args` at smaller fuel. -/
-def structural (u ua : U) (σ : Store) (t1 t2 t1r t2r : Ty) : Out :=
-  let mismatch : Out := some (σ, .error [.mismatch])
-  match asArray t1r, asArray t2r with
-  | some a1, some a2 =>
-    match u σ a1 a2 with
-    | none => none
-    | some (σ', .ok .ident) => some (σ', .ok .ident)
-    | some (σ', .ok _) => some (σ', .error [.mismatch])
-    | some (σ', .error e) => some (σ', .error e)
-  | _, _ =>
-  match asRef t1r, asRef t2r with
-  | some x1, some x2 => u σ x1 x2
-  | _, _ =>
-  match asTuple t1r, asTuple t2r with
-  | some a1, some a2 =>
-    if a1.length = a2.length then
-      match vecPass u σ a1 a2 with
-      | none => none
-      | some (σ', rs) =>
-        match vecVerdict rs with
-        | .ok _ => some (σ', .ok .ident)
-        | .error e => some (σ', .error e)
-    else some (σ, .error [.length])
-  | _, _ =>
-  match asRecord t1r, asRecord t2r with
-  | some a1, some a2 => recordArm u σ a1 a2
-  | _, _ =>
-  match asFn t1r, asFn t2r with
-  | some (arg1, ret1), some (arg2, ret2) =>
-    match ua σ arg1 arg2 with
-    | none => none
-    | some (σ1, argRes) =>
-      match u σ1 ret1 ret2 with
-      | none => none
-      | some (σ2, retRes) => some (σ2, fnVerdict argRes retRes)
-  | _, _ =>
-  if (match asPrim t1r, asPrim t2r with | some p1, some p2 => decide (p1 = p2) | _, _ => false) then some (σ, .ok .ident)
-  else if (match asScheme t1r, asScheme t2r with | some s1, some s2 => decide (s1 = s2) | _, _ => false) then some (σ, .ok .ident)
-  else if (asScheme t1r).isSome || (asScheme t2r).isSome then mismatch
-  else if (isUnit t1r && isTuple0 t2r) || (isTuple0 t1r && isUnit t2r) then some (σ, .ok .ident)
-  else match asTuple1 t2r with
-  | some v => u σ t1 v                                                  -- `(_t, Tuple(v)) if v.len() == 1`
-  | none =>
-  match asTuple1 t1r with
-  | some v => u σ v t2                                                  -- `(Tuple(v), _t) if v.len() == 1`
-  | none =>
-  if (isUnit t1r && isRecord0 t2r) || (isRecord0 t1r && isUnit t2r) then some (σ, .ok .ident)
-  else if isFailure t1r || isAny t2r then some (σ, .ok .ident)
-  else if isAny t1r || isFailure t2r then some (σ, .ok .ident)
-  else match asCode t1r, asCode t2r with
-  | some p1, some p2 => u σ p1 p2
-  | _, _ =>
-  match asUnion t1r, asUnion t2r with
-  | some us1, some us2 =>
-    if us1.length ≠ us2.length then mismatch
-    else
-      -- `us1.all(|m1| us2.any(|m2| unify_types(m1, m2).is_ok_and(|r| r == Identical)))`
-      match allOf (fun σ m1 => firstHit (fun σ m2 => u σ m1 m2) isIdent σ us2) σ us1 with
-      | none => none
-      | some (σ', true) => some (σ', .ok .ident)
-      | some (σ', false) => some (σ', .error [.mismatch])
-  | _, some us2 =>
-    -- `for m in us2 { if unify_types(t1r, m).is_ok() { return Ok(Subtype) } }`
-    match firstHit (fun σ m => u σ t1r m) isOk σ us2 with
-    | none => none
-    | some (σ', true) => some (σ', .ok .sub)
-    | some (σ', false) => some (σ', .error [.mismatch])
-  | some us1, none =>
-    -- `us1.all(|m| unify_types(m, t2r).is_ok())`
-    match allOf (fun σ m => match u σ m t2r with | none => none | some (σ', r) => some (σ', isOk r)) σ us1 with
-    | none => none
-    | some (σ', true) => some (σ', .ok .sup)
-    | some (σ', false) => some (σ', .error [.mismatch])
-  | none, none =>
+/-- last part of the table of `unify_types`: `UserSum`, the three `Boxed` arms, `(_p1, _p2)` -/
+def structuralD (u : U) (σ : Store) (t1r t2r : Ty) : Out :=
   match asSum t1r, asSum t2r with
-  | some n1, some n2 => if n1 = n2 then some (σ, .ok .ident) else mismatch
+  | some n1, some n2 => if n1 = n2 then some (σ, .ok .ident) else some (σ, .error [.mismatch])
   | _, _ =>
   match asBoxed t1r, asBoxed t2r with
   | some b1, some b2 => u σ b1 b2
@@ -424,7 +350,99 @@ def structural (u ua : U) (σ : Store) (t1 t2 t1r t2r : Ty) : Out :=
     | none => none
     | some (σ', .ok _) => some (σ', .ok .ident)
     | some (σ', .error _) => some (σ', .error [.mismatch])
-  | none, none => mismatch
+  | none, none => some (σ, .error [.mismatch])
+
+/-- `Code` and the three `Union` arms, then `structuralD` -/
+def structuralC (u : U) (σ : Store) (t1r t2r : Ty) : Out :=
+  match asCode t1r, asCode t2r with
+  | some p1, some p2 => u σ p1 p2
+  | _, _ =>
+  match asUnion t1r, asUnion t2r with
+  | some us1, some us2 =>
+    if us1.length ≠ us2.length then some (σ, .error [.mismatch])
+    else
+      -- `us1.all(|m1| us2.any(|m2| unify_types(m1, m2).is_ok_and(|r| r == Identical)))`
+      match allOf (fun σ m1 => firstHit (fun σ m2 => u σ m1 m2) isIdent σ us2) σ us1 with
+      | none => none
+      | some (σ', true) => some (σ', .ok .ident)
+      | some (σ', false) => some (σ', .error [.mismatch])
+  | none, some us2 =>
+    -- `for m in us2 { if unify_types(t1r, m).is_ok() { return Ok(Subtype) } }`
+    match firstHit (fun σ m => u σ t1r m) isOk σ us2 with
+    | none => none
+    | some (σ', true) => some (σ', .ok .sub)
+    | some (σ', false) => some (σ', .error [.mismatch])
+  | some us1, none =>
+    -- `us1.all(|m| unify_types(m, t2r).is_ok())`
+    match allOf (fun σ m => match u σ m t2r with | none => none | some (σ', r) => some (σ', isOk r)) σ us1 with
+    | none => none
+    | some (σ', true) => some (σ', .ok .sup)
+    | some (σ', false) => some (σ', .error [.mismatch])
+  | none, none => structuralD u σ t1r t2r
+
+/-- equal primitives / type schemes, `unit` ~ `()` ~ `{}`, one-element tuples, `Any` / `Failure`, then `structuralC` -/
+def structuralB (u : U) (σ : Store) (t1 t2 t1r t2r : Ty) : Out :=
+  if (match asPrim t1r, asPrim t2r with | some p1, some p2 => decide (p1 = p2) | _, _ => false) then some (σ, .ok .ident)
+  else if (match asScheme t1r, asScheme t2r with | some s1, some s2 => decide (s1 = s2) | _, _ => false) then some (σ, .ok .ident)
+  else if (asScheme t1r).isSome || (asScheme t2r).isSome then some (σ, .error [.mismatch])
+  else if (isUnit t1r && isTuple0 t2r) || (isTuple0 t1r && isUnit t2r) then some (σ, .ok .ident)
+  else match asTuple1 t2r with
+  | some v => u σ t1 v                                                  -- `(_t, Tuple(v)) if v.len() == 1`
+  | none =>
+  match asTuple1 t1r with
+  | some v => u σ v t2                                                  -- `(Tuple(v), _t) if v.len() == 1`
+  | none =>
+  if (isUnit t1r && isRecord0 t2r) || (isRecord0 t1r && isUnit t2r) then some (σ, .ok .ident)
+  else if isFailure t1r || isAny t2r then some (σ, .ok .ident)
+  else if isAny t1r || isFailure t2r then some (σ, .ok .ident)
+  else structuralC u σ t1r t2r
+
+/-- `(Type::Tuple(a1), Type::Tuple(a2))` -/
+def tupleArm (u : U) (σ : Store) (a1 a2 : List Ty) : Out :=
+  if a1.length = a2.length then
+    match vecPass u σ a1 a2 with
+    | none => none
+    | some (σ', rs) =>
+      match vecVerdict rs with
+      | .ok _ => some (σ', .ok .ident)
+      | .error e => some (σ', .error e)
+  else some (σ, .error [.length])
+
+/-- `(Type::Function { arg1, ret1 }, Type::Function { arg2, ret2 })`: both calls are made, in this order -/
+def fnArm (u ua : U) (σ : Store) (arg1 ret1 arg2 ret2 : Ty) : Out :=
+  match ua σ arg1 arg2 with
+  | none => none
+  | some (σ1, argRes) =>
+    match u σ1 ret1 ret2 with
+    | none => none
+    | some (σ2, retRes) => some (σ2, fnVerdict argRes retRes)
+
+/-- `(Type::Array(a1), Type::Array(a2))`: anything but `Identical` is a mismatch -/
+def arrayArm (u : U) (σ : Store) (a1 a2 : Ty) : Out :=
+  match u σ a1 a2 with
+  | none => none
+  | some (σ', .ok .ident) => some (σ', .ok .ident)
+  | some (σ', .ok _) => some (σ', .error [.mismatch])
+  | some (σ', .error e) => some (σ', .error e)
+
+/-- `unify_types` from its first structural arm on (`t1r`, `t2r` are roots and not variables).
+`u` = `unify_types`, `ua` = `unify_types_args` at smaller fuel. -/
+def structural (u ua : U) (σ : Store) (t1 t2 t1r t2r : Ty) : Out :=
+  match asArray t1r, asArray t2r with
+  | some a1, some a2 => arrayArm u σ a1 a2
+  | _, _ =>
+  match asRef t1r, asRef t2r with
+  | some x1, some x2 => u σ x1 x2
+  | _, _ =>
+  match asTuple t1r, asTuple t2r with
+  | some a1, some a2 => tupleArm u σ a1 a2
+  | _, _ =>
+  match asRecord t1r, asRecord t2r with
+  | some a1, some a2 => recordArm u σ a1 a2
+  | _, _ =>
+  match asFn t1r, asFn t2r with
+  | some (arg1, ret1), some (arg2, ret2) => fnArm u ua σ arg1 ret1 arg2 ret2
+  | _, _ => structuralB u σ t1 t2 t1r t2r
 
 /-- the three variable arms; `none` = neither root is a variable -/
 def varArms (g : Nat) (σ : Store) (t2 t1r t2r : Ty) : Option Out :=
@@ -436,6 +454,37 @@ def varArms (g : Nat) (σ : Store) (t2 t1r t2r : Ty) : Option Out :=
 
 def isRecord (t : Ty) : Bool := (asRecord t).isSome
 def isTuple (t : Ty) : Bool := (asTuple t).isSome
+
+/-- `unify_types_args` from `(Record(kvs), Tuple(_))` on (neither root is a variable) -/
+def argsTail (u ua : U) (σ : Store) (t1 t2 t1r t2r : Ty) : Out :=
+  match asRecord t1r, isTuple t2r with
+  | some kvs, true => ua σ (.tuple (kvs.map (·.ty))) t2                  -- `(Record(kvs), Tuple(_))`
+  | _, _ =>
+  if isTuple t1r && isRecord t2r then ua σ t2 t1                         -- `(Tuple(_), Record(_)) => unify_types_args(t2, t1)`
+  else match asUnion t1r with
+  | some us =>
+    -- `for m in us { if unify_types_args(m, t2r).is_ok() { return Ok(Identical) } }`
+    match firstHit (fun σ m => ua σ m t2r) isOk σ us with
+    | none => none
+    | some (σ', true) => some (σ', .ok .ident)
+    | some (σ', false) => some (σ', .error [.mismatch])
+  | none => u σ t1 t2
+
+/-- the five arms of `unify_types_args` in front of its variable arms; `none` = none of them applies -/
+def argsHead (u ua : U) (σ : Store) (t1 t2 t1r t2r : Ty) : Option Out :=
+  if (isRecord t1r && isRecord t2r) || (isTuple t1r && isTuple t2r) then some (u σ t1 t2)
+  else match asRecord1 t1r with
+  | some fl => some (ua σ fl.ty t2)                                      -- `(Record(v), _) if v.len() == 1`
+  | none =>
+  match (match asRecord1 t2r with | some fl => if fl.dflt then none else some fl | none => none) with
+  | some fl => some (ua σ t1 fl.ty)                                      -- `(_, Record(v)) if v.len() == 1 && !has_default`
+  | none =>
+  match asTuple1 t2r with
+  | some v => some (ua σ t1 v)
+  | none =>
+  match asTuple1 t1r with
+  | some v => some (ua σ v t2)
+  | none => none
 
 /-- `args = false`: `unify_types(t1, t2)`; `args = true`: `unify_types_args(t1, t2)` -/
 def go (g : Nat) : Nat → Bool → Store → Ty → Ty → Out
@@ -450,34 +499,12 @@ def go (g : Nat) : Nat → Bool → Store → Ty → Ty → Out
   | f + 1, true, σ, t1, t2 =>
     match root σ g t1, root σ g t2 with
     | some t1r, some t2r =>
-      if (isRecord t1r && isRecord t2r) || (isTuple t1r && isTuple t2r) then go g f false σ t1 t2
-      else match asRecord1 t1r with
-      | some fl => go g f true σ fl.ty t2                                -- `(Record(v), _) if v.len() == 1`
-      | none =>
-      match (match asRecord1 t2r with | some fl => if fl.dflt then none else some fl | none => none) with
-      | some fl => go g f true σ t1 fl.ty                                -- `(_, Record(v)) if v.len() == 1 && !has_default`
-      | none =>
-      match asTuple1 t2r with
-      | some v => go g f true σ t1 v
-      | none =>
-      match asTuple1 t1r with
-      | some v => go g f true σ v t2
+      match argsHead (go g f false) (go g f true) σ t1 t2 t1r t2r with
+      | some out => out
       | none =>
       match varArms g σ t2 t1r t2r with
       | some out => out
-      | none =>
-      match asRecord t1r, isTuple t2r with
-      | some kvs, true => go g f true σ (.tuple (kvs.map (·.ty))) t2     -- `(Record(kvs), Tuple(_))`
-      | _, _ =>
-      if isTuple t1r && isRecord t2r then go g f true σ t2 t1            -- `(Tuple(_), Record(_)) => unify_types_args(t2, t1)`
-      else match asUnion t1r with
-      | some us =>
-        -- `for m in us { if unify_types_args(m, t2r).is_ok() { return Ok(Identical) } }`
-        match firstHit (fun σ m => go g f true σ m t2r) isOk σ us with
-        | none => none
-        | some (σ', true) => some (σ', .ok .ident)
-        | some (σ', false) => some (σ', .error [.mismatch])
-      | none => go g f false σ t1 t2
+      | none => argsTail (go g f false) (go g f true) σ t1 t2 t1r t2r
     | _, _ => none
 
 /-- `unify_types(t1, t2)` -/
